@@ -154,6 +154,11 @@ func serverType(genpkg string, svc *expr.HTTPServiceExpr, _ map[string]struct{})
 
 	// body attribute types
 	for _, tdata := range data.ServerBodyAttributeTypes {
+		if _, ok := generated[tdata.Name]; ok {
+			// already rendered as a response body type (a recursive result
+			// type uses its own projection as attribute type)
+			continue
+		}
 		if tdata.Def != "" {
 			sections = append(sections, &codegen.SectionTemplate{
 				Name:   "server-body-attributes",
